@@ -1,7 +1,9 @@
 """C13 — equivalent syntax configurations render identically.
 
 proof : Properties/C13.v (rules_sorted_by_length, longest_start_wins — every configuration and source;
-        delimiter_invariance_small_scope, line_statement_equiv_small_scope — Coq-checked enumerations;
+        delimiter_invariance — EVERY skeleton, any two configurations satisfying the bundle skel_cfg;
+        delimiter_invariance_families — default / <% %> <%= %> <%# #%> / $% %$ ${ } $# #$;
+        delimiter_invariance_small_scope (incl. <!-- -->), line_statement_equiv_small_scope — enumerations;
         line_comment_equiv_refuted — witness) + obligations regenerated from lexer.py / environment.py by
         gen/lex_envfacts.py (lexer_cache_transparent, lexer_reads_are_model_fields, spontaneous_env_args,
         overlay_copies)
@@ -131,7 +133,7 @@ def run(ctx):
             parts.append(ctx.rng.choice(tags1))
         parts.append("".join(ctx.rng.choice([" ", "\n", "a"]) for _ in range(ctx.rng.randint(0, 3))))
         sks.append(c12.skel(parts))
-    names = ["default", "angle", "dollar", "linepct"]
+    names = ["default", "angle", "dollar", "linepct", "asp"]
     acases = []
     for k in sks:
         t, l = ctx.rng.choice(settings)
